@@ -61,6 +61,9 @@ class AttrExec(SeqExec):
         if obj.k == "helper" and attr in ("export", "import_"):
             yield p, V("helpermethod", (obj, attr))
             return
+        if obj.k == "obj" and obj.t == "self0" and attr == "__dict__":
+            yield p, V("dictof", "self0")
+            return
         if obj.k == "obj" and obj.t == "self0":
             fields = p.extra["objs"]["self0"]
             if attr in fields:
@@ -89,6 +92,14 @@ class AttrExec(SeqExec):
             return [p]
         if obj.k == "obj" and obj.t == "self0" and getattr(self.spec, "plain_object", False):
             raise Unsupported("store on self in %s" % self.fi.name)
+        if obj.k == "obj" and obj.t == "self0" and getattr(self.spec, "plain_store", False):
+            # ordinary class: `self.x = v` is the default protocol (property setter for parent/children, else instance dict)
+            objs = dict(p.extra["objs"])
+            objs["self0"] = dict(objs["self0"])
+            objs["self0"][attr] = v
+            p.extra["objs"] = objs
+            self.effect(p, "assign-on-self", attr, v)
+            return [p]
         if obj.k == "obj" and obj.t == "self0":
             # an assignment on the symlink instance goes through the class's __setattr__ (its contract)
             spec = self.reg.methods.get(("SymlinkNodeMixin", "__setattr__"))
@@ -187,7 +198,7 @@ class AttrExec(SeqExec):
             for q, (d, a) in self.evs2(f.value, e.args[0], p):
                 if d.k != "dictof":
                     raise Unsupported("update on %r" % d)
-                self.effect(q, "dict-update", vref(d.t), a)
+                self.effect(q, "dict-update", vref(d.t) if not isinstance(d.t, str) else V("obj", d.t), a)
                 yield q, VNONE
             return
         if isinstance(f, ast.Name) and f.id in ("getattr", "setattr") and f.id not in p.env:
